@@ -318,6 +318,11 @@ class CaseGen:
                 out.append('c %d %d' % (v, m))
         for _ in range(300 * scale):
             out.append('c %d %d' % (r.below(1 << r.range(1, 62)), r.choice([1, 2, 4, 8, 16])))
+        # the real SetBit / GetBit: b <8 initial bytes as one 64-bit value> <bit index 0..63>
+        for i in range(64):
+            out.append('b %d %d' % (r.choice([0, M64, r.next()]), i))
+        for _ in range(100 * scale):
+            out.append('b %d %d' % (r.next(), r.below(64)))
         # the real pvGetOffset on arbitrary non-zero addends (wrap-around sums included): p L codeParam code addend1 addend2
         big = [1, 2, 1 << 63, (1 << 63) + 8, (1 << 64) - 1, (1 << 64) - 8, (1 << 32), 12345]
         for _ in range(250 * scale):
@@ -495,6 +500,10 @@ def check_unit(case, out):
             L = int(w[1]); v1, v2 = map(int, out.split())
             if not (0 <= v1 < (1 << L) and 0 <= v2 < (1 << L) and v1 != v2):
                 return 'GetVertices(%s, %s) for logVertexCount %d gives %d, %d' % (w[2], w[3], L, v1, v2)
+        elif w[0] == 'b':
+            v = int(w[1]) | (1 << int(w[2])); t = out.split()
+            if [int(x) for x in t[:8]] != [(v >> (8 * k)) & 255 for k in range(8)] or t[8] != ''.join('1' if (v >> j) & 1 else '0' for j in range(64)):
+                return 'SetBit(%s, %s) / GetBit give %s' % (w[1], w[2], out)
         elif w[0] == 'p':
             if int(out) != (int(w[4]) + int(w[5])) % (1 << 64):
                 return 'pvGetOffset with addends %s, %s returns %s' % (w[4], w[5], out)
@@ -524,7 +533,7 @@ def replay(ctx, rp):
     path = os.path.join(ctx.build, 'replay.cases'); open(path, 'w').write(case + '\n')
     rc, lines, err = ctx.run_lines([harness], path)
     out = lines[0] if lines else '<crash> ' + err[-300:]
-    bad = check_unit(case, out) if case.split()[0] in ('v', 'c', 'p') else check_case(case, out)[0]
+    bad = check_unit(case, out) if case.split()[0] in ('v', 'c', 'p', 'b') else check_case(case, out)[0]
     print('case:', case, '\nimplementation:', out)
     if rp.get('model') is not None and rp.get('model') != out:
         print('model       :', rp['model']); bad = bad or 'model and implementation disagree'
@@ -670,7 +679,7 @@ def run(ctx):
             'max_columns_reached_per_logVertexCount': {}, 'code_kind': {'string-hash (DataColumn(name))': 0, 'explicit 64-bit': 0, 'member offset (DataColumnCodeOffset)': 0},
             'histories_with_instrumented_items': 0, 'row_failure_scenarios_compared_with_L2_model': 0}
     for (c, out) in results:
-        if c.split()[0] in ('v', 'c', 'p'):
+        if c.split()[0] in ('v', 'c', 'p', 'b'):
             why = check_unit(c, out)
         elif out.startswith('<harness died'):
             why = out
